@@ -12,6 +12,18 @@ prop = meta.get("property")
 checks = sys.argv[3:] or [prop]
 tier = os.environ.get("TIER", "quick")
 
+COPY = os.environ.get("MUT_COPY")  # evaluate on a copy of /repo (while another check may be building from /repo)
+REPO = "/tmp/mutrepo" if COPY else "/repo"
+def prep():
+    if COPY:
+        subprocess.run("mkdir -p /tmp/mutrepo && rsync -a --delete --exclude .git /repo/ /tmp/mutrepo/", shell=True, check=True)
+def undo():
+    if COPY:
+        subprocess.run("rm -rf /tmp/mutrepo", shell=True)
+    else:
+        subprocess.run("git checkout -- .", cwd="/repo", shell=True)
+def checkcmd(c, tier):
+    return f"bin/simrun -prop {c} -tier {tier} -repo /tmp/mutrepo" if COPY else f"./check {c} {tier}"
 def run(cmd, cwd, timeout=1800):
     p = subprocess.run(cmd, cwd=cwd, shell=True, env=env, capture_output=True, text=True, timeout=timeout)
     return p.returncode, (p.stdout + p.stderr)
@@ -48,20 +60,21 @@ for root, _, files in os.walk(wt):
             os.makedirs(os.path.dirname(os.path.join(dst, rel)), exist_ok=True)
             shutil.copy(p, os.path.join(dst, rel))
 # apply to /repo, run checks, undo
-rc, out = run(f"git apply {patch}", "/repo")
+prep()
+rc, out = run(f"git apply {patch}", REPO)
 if rc != 0:
     print("cannot apply to /repo:", out); sys.exit(1)
 results = {}
 try:
     for c in checks:
         t0 = time.time()
-        rc, out = run(f"./check {c} {tier}", "/verif", timeout=7200)
+        rc, out = run(checkcmd(c, tier), "/verif", timeout=7200)
         viol = [l for l in out.splitlines() if l.startswith("VIOLATION") or l.strip().startswith("oracle=")]
         results[c] = {"exit": rc, "detected": rc == 1, "wall_s": round(time.time() - t0, 1), "lines": viol[:6], "summary": [l for l in out.splitlines() if l.startswith("simrun:")][-1:]}
         print("CHECK", name, c, "exit", rc, "DETECTED" if rc == 1 else "missed", results[c]["summary"], viol[:4])
 finally:
-    run("git checkout -- .", "/repo")
-    run("rm -rf /verif/replays", "/verif")
+    undo()
+    run("rm -rf /tmp/verif-replays-other" if COPY else "rm -rf /verif/replays", "/verif")
 meta_out = dict(meta)
 meta_out.update({"name": name, "confirmed": {k: v for k, v in conf.items() if isinstance(v, bool)}, "ran": {"demo_cmd": demo_cmd, "checks": results, "tier": tier}})
 json.dump(meta_out, open(os.path.join(dst, "meta.json"), "w"), indent=1)
